@@ -8,21 +8,22 @@ Transition = one edit (permute type decls, move an impl, swap bridge modules, in
              insert a non-bridge item); BFS from every seed; both orderings of an item multiset are separate states.
 Invariant  = per edge and backend, on sha1 of every generated file (see `check_edge`), plus 3 fresh processes per state.
 """
+import concurrent.futures as cf
 import difflib
-import itertools
 import json
+import multiprocessing
 import os
-import queue
 import re
 import shutil
 import subprocess
 import time
 from collections import namedtuple
 
-from vlib.common import (BACKENDS, NCPU, REPO, MachineryError, Reporter, build_tool, default_configs, pmap, read_tree,
+from vlib.common import (BACKENDS, REPO, MachineryError, Reporter, build_tool, default_configs, pmap, read_tree,
                          run_tool, sha, workdir)
 
 RUNS_PER_STATE = 3          # fresh processes per (state, backend): RandomState differs in each
+COLLECTORS = 8             # worker processes that read and hash output trees
 RECHECK_RUNS = 12           # extra fresh processes when a re-run difference is being confirmed
 
 # Aggregate (index) files: they enumerate all types, so inserting / deleting a type legitimately changes them.
@@ -1012,6 +1013,7 @@ class Runner:
     def __init__(self, wd):
         self.wd = wd
         self.executions = 0
+        self.pool = None
 
     def write_src(self, tag, state):
         d = os.path.join(self.wd, "src", tag)
@@ -1060,20 +1062,36 @@ class Runner:
             return res
 
         raw = pmap(job, range(len(tasks)))
-        results = []
+        ok_dirs = []
         for t, res in enumerate(raw):
-            per = []
             for r, (rc, err) in enumerate(res):
                 self.executions += 1
                 out = os.path.join(self.wd, "out", "%d_%d" % (t, r))
                 if rc != 0:
                     self._mark_stale(out)
-                    per.append((rc, None, err[-1500:]))
                 else:
-                    hashes, _ = self._collect(out, False)
-                    per.append((0, hashes, err[-500:]))
+                    ok_dirs.append(out)
+        # reading + hashing: single-threaded worker processes (see class comment), a few dozen directories per request
+        if self.pool is None:
+            self.pool = cf.ProcessPoolExecutor(max_workers=COLLECTORS, mp_context=multiprocessing.get_context("fork"))
+        step = max(1, min(40, len(ok_dirs) // (COLLECTORS * 2) + 1))
+        chunks = [ok_dirs[i:i + step] for i in range(0, len(ok_dirs), step)]
+        hashed = {}
+        for chunk, hs in zip(chunks, self.pool.map(_collect_dirs, chunks)):
+            hashed.update(zip(chunk, hs))
+        results = []
+        for t, res in enumerate(raw):
+            per = []
+            for r, (rc, err) in enumerate(res):
+                out = os.path.join(self.wd, "out", "%d_%d" % (t, r))
+                per.append((rc, None, err[-1500:]) if rc != 0 else (0, hashed[out], err[-500:]))
             results.append(per)
         return results
+
+    def close(self):
+        if self.pool is not None:
+            self.pool.shutdown()
+            self.pool = None
 
     def once(self, seed, src, backend, keep=False, pristine=True):
         """one fresh process into a brand-new directory (re-checks, called from the main thread only)
@@ -1087,6 +1105,10 @@ class Runner:
             return p.returncode, None, p.stderr[-1500:], None
         hashes, tree = self._collect(out, keep)
         return 0, hashes, p.stderr[-500:], tree
+
+
+def _collect_dirs(dirs):
+    return [Runner._collect(d, False)[0] for d in dirs]
 
 
 def tree_digest(h):
@@ -1303,7 +1325,6 @@ class Explorer:
                 self.rerun_reported.add((b, root.key))
                 self.report_rerun(root, b)      # the tool itself is not stable
         frontier = [root]
-        done_depth = 0
         for d, opts in enumerate(opts_by_depth, 1):
             pending = []    # (parent, edit, child node)
             new_nodes = []
@@ -1339,11 +1360,8 @@ class Explorer:
                                              1 for f in set(parent.out[b]) | set(node.out[b]) if parent.out[b].get(f) != node.out[b].get(f)))
                                              for b in BACKENDS}})
             frontier = new_nodes
-            if executed == len(new_nodes) or True:
-                done_depth = d
             if not frontier or self.truncated:
                 break
-        return done_depth
 
     def count_seed(self, seed):
         return sum(1 for (s, _) in self.nodes if s == seed.name)
@@ -1367,7 +1385,6 @@ def make_seeds(wd, tier):
 # edit alphabets.  FULL is used for the first edit of every history; deeper levels use narrower alphabets so that the number of
 # real tool runs (21 per state; ~250 process starts per second on this box) fits the tier's wall budget.
 FULL = {}
-QUICK1 = {"insert_combos": (("opaque", "first"), ("opaque", "last"), ("struct", "middle"), ("enum", "first"), ("enum", "last"))}
 REDUCED = {"insert_combos": (("opaque", "first"), ("struct", "middle"), ("enum", "last")),
            "nonbridge_kinds": ("same-name-struct", "plain-mod", "outer-impl")}
 PERMDEL = {"insert_combos": (), "nonbridge_kinds": ()}          # permutations and deletions only
@@ -1375,12 +1392,10 @@ FT_QUICK = {"perm_files": ("structs.rs", "attrs.rs"), "insert_files": ("attrs.rs
             "insert_combos": (("opaque", "first"), ("struct", "last"), ("enum", "middle")),
             "nonbridge_files": ("lib.rs",), "nonbridge_kinds": ("same-name-struct", "plain-mod", "outer-impl", "fn")}
 FT_FULL = {"nonbridge_files": ("lib.rs", "structs.rs", "attrs.rs")}
-FT_DEEP = {"perm_files": ("attrs.rs", "lifetimes.rs"), "insert_files": ("attrs.rs",), "insert_combos": (("opaque", "first"),),
-           "nonbridge_kinds": ("plain-mod",)}
 
 PLAN = {
-    "quick": [("tiny", [QUICK1, PERMDEL]), ("basic", [QUICK1]), ("two_modules", [QUICK1]), ("cyclic", [QUICK1]),
-              ("interleaved", [QUICK1]), ("results", [QUICK1]), ("strings", [QUICK1]), ("feature_tests", [FT_QUICK])],
+    "quick": [("tiny", [FULL, PERMDEL]), ("basic", [FULL]), ("two_modules", [FULL]), ("cyclic", [FULL]),
+              ("interleaved", [FULL]), ("results", [FULL]), ("strings", [FULL]), ("feature_tests", [FT_QUICK])],
     "thorough": [("tiny", [FULL, REDUCED, PERMDEL]), ("feature_tests", [FT_FULL]), ("basic", [FULL, REDUCED]),
                  ("two_modules", [FULL, REDUCED]), ("cyclic", [FULL, REDUCED]), ("interleaved", [FULL, REDUCED]),
                  ("results", [FULL, REDUCED]), ("strings", [FULL, REDUCED])],
@@ -1408,6 +1423,7 @@ def run(tier):
         per_seed[name] = {"depth": len(opts_by_depth), "alphabet_by_depth": [o or "FULL" for o in opts_by_depth],
                           "states": len(ex.nodes) - before[0], "edit_applications": ex.edges - before[1],
                           "wall_s": round(time.time() - t0, 1)}
+    ex.runner.close()
     shutil.rmtree(wd, ignore_errors=True)
     n_states = len(ex.nodes)
     cov = {
